@@ -81,12 +81,19 @@ def run(tier):
         "forced placements skip the controls and are not judged by clause c",
     ]
     livelife.explore_live(rep, ENABLED, tier)
+    from props import betdaqlife
+
+    betdaqlife.explore_betdaq(rep, ENABLED, tier)  # the same oracles over the Betdaq execution / polling path
     rep.engine = "E1 simx + E2 livex"
     return rep.finish()
 
 
 def replay(rep):
     c = rep["case"]
+    if "betdaq" in c:
+        from props import betdaqlife
+
+        return betdaqlife.replay_betdaq(c, ENABLED)
     if "path" in c:
         return livelife.replay_live(c, ENABLED)
     r = L.run_history(c["history"], ENABLED, c.get("cfg"))
